@@ -337,6 +337,7 @@ class Check:
                 sub.vacuity.append(f'{obs[0].name}: hypotheses unsatisfiable (vacuous)')
         timeout = int(os.environ.get('VF_TIMEOUT_MS') or (20000 if self.tier == 'quick' else 60000))
         recs = []
+        hard = 0
         for ob in obs:
             # refutation hint: a model of hyps ∧ ¬goal ∧ hint is a genuine counter-model of the obligation (the hint
             # only tells the solver where to look); no model under the hint decides nothing
@@ -350,17 +351,17 @@ class Check:
                 recs.append(rec)
                 continue
             try:
-                ob.status, ob.backend, ob.time_s, ob.model, ob.note = solve.solve_one(ob, timeout)
+                # once three VCs of this scenario have exhausted the whole portfolio the scenario is undecided anyway:
+                # the remaining ones get the cheap strategy (a failing run must not take an hour)
+                ob.status, ob.backend, ob.time_s, ob.model, ob.note = solve.solve_one(ob, timeout, cheap=hard >= 3)
             except Exception as e:          # noqa: BLE001
                 ob.status, ob.note = 'error', repr(e)
             if ob.status not in ('proved', 'refuted'):
-                # bounded refutation search: the same VC with the integer inputs confined to a small box, where the
-                # solver finds counter-models of quantified VCs quickly (any model is a genuine counter-model)
-                for bound in (3, 6):
-                    if solve.bounded_refute(ob, bound, 8000):
-                        ob.status, ob.backend = 'refuted', 'z3-' + z3.get_version_string()
-                        ob.note = f'counter-model found with integer inputs confined to [-{bound}, {bound}]'
-                        break
+                hard += 1
+                # bounded refutation search in a larger box (any model is a genuine counter-model)
+                if hard <= 3 and solve.bounded_refute(ob, 6, 8000):
+                    ob.status, ob.backend = 'refuted', 'z3-' + z3.get_version_string()
+                    ob.note = 'counter-model found with integer inputs confined to [-6, 6]'
             rec = ObRec(ob)
             if ob.status == 'refuted':
                 rec.witness = concretise(ob)
